@@ -3,7 +3,8 @@
    `numbat -N` invocation (F<file content>, E<expression> fields), and printing
    exit status, stdout lines and whether stderr is non-empty.  No proofs. *)
 From Coq Require Import List Bool String Ascii NArith.
-From NV Require Import Base.Show Session.Resolver Session.Context Session.Toy Session.Cli.
+From NV Require Import Base.Show Session.Resolver Session.Context Session.Toy.
+From NV Require Import Session.Cli.
 Import ListNotations.
 Open Scope string_scope.
 
@@ -80,5 +81,56 @@ Definition show_cli_full_line (k : skeleton) (line : string) : string :=
   let init := option_map parse_code (first_field "G"%char fs) in
   let stdin := map parse_code (all_fields "Z"%char fs) in
   let r := toy_cli_full k (has_field "n"%char fs) (has_field "i"%char fs) init file exprs stdin in
+  "exit=" ++ show_nat (exit_status string r) ++ "|out=" ++ join rs (stdout string r)
+          ++ "|err=" ++ (match stderr string r with [] => "0" | _ => "1" end).
+
+
+(* ---- phase 4: the REPL commands, on an instance whose source text IS the text (Code := string,
+        parse := parse_code), so that a line can be classified as a command by its first word as
+        CommandParser does.  Case line fields as above; the stdin lines (Z) may be commands:
+        quit / exit / reset / clear / save <path>, or a command with wrong arguments. ---- *)
+Definition text_ctx := ctx string string tA tB tC.
+Definition fresh_text : text_ctx :=
+  mkCtx string string tA tB tC (mkA [] [] []) (mkB [] [] None) (mkC [] None) (new_resolver string string).
+
+Fixpoint nonempty_words (l : list string) : list string :=
+  match l with
+  | [] => []
+  | EmptyString :: r => nonempty_words r
+  | w :: r => w :: nonempty_words r
+  end.
+Definition command_names : list string := ["quit"; "exit"; "reset"; "clear"; "save"; "list"; "help"; "info"].
+
+Definition command_of (l : string) : option (cmd string) :=
+  match nonempty_words (split " "%char l) with
+  | [w] => if orb (String.eqb w "quit") (String.eqb w "exit") then Some (CQuit string)
+           else if String.eqb w "reset" then Some (CReset string)
+           else if String.eqb w "clear" then Some (COut string [])
+           else if String.eqb w "info" then Some (CErr string "<diagnostic>")
+           else None                      (* `save`, `list`, `help` without arguments are not generated *)
+  | [w; p] => if String.eqb w "save" then Some (COut string ["  successfully saved session history to " ++ p])
+              else if mem w command_names then Some (CErr string "<diagnostic>") else None
+  | w :: _ => if mem w command_names then Some (CErr string "<diagnostic>") else None
+  | [] => None
+  end.
+Definition text_is_blank (l : string) : bool := match nonempty_words (split " "%char l) with [] => true | _ => false end.
+
+Definition text_cli_cmd (k : skeleton) (insp : bool) (file : option string) (exprs : option (list string))
+           (stdin : list string) :=
+  cli_full_cmd string String.eqb string tstmt (fun _ => None) parse_code tA tB tC (list tstmt) typed eA eB eC
+               result string transform check run k 1 (fun l => join (String nl EmptyString) l) string
+               (fun p => p)
+               (fun v : result => match fst v with Some x => [show_value x] | None => [] end)
+               (fun _ => "<diagnostic>") "Interpreter stopped"
+               "" "Interpreter error in Prelude code" "Interpreter error in user initialization code"
+               "Interpreter stopped due to error" text_is_blank command_of fresh_text
+               (config_of_args true true insp) fresh_text None file exprs stdin.
+
+Definition show_cli_cmd_line (k : skeleton) (line : string) : string :=
+  let fs := split (ascii_of_nat 9) line in
+  let file := first_field "F"%char fs in
+  let es := all_fields "E"%char fs in
+  let exprs := match es with [] => None | _ => Some es end in
+  let r := text_cli_cmd k (has_field "i"%char fs) file exprs (all_fields "Z"%char fs) in
   "exit=" ++ show_nat (exit_status string r) ++ "|out=" ++ join rs (stdout string r)
           ++ "|err=" ++ (match stderr string r with [] => "0" | _ => "1" end).
